@@ -24,7 +24,7 @@ CHECKS = {
             "to the model's routine graphs by a checked certificate and executed on the Lean AVM spec against the Lean source semantics on generated "
             "contexts. For programs inside inFragmentR (reported per run) the model graphs are PROVED to mean what the source program means.",
             "Trusted: AVM frame rules (callsub/retsub/proto/frame_dig/frame_bury), the source semantics of calls in Src.lean. Not proved (executed "
-            "only): ABI outputs / ABI subroutines, WideRatio inside call graphs, the optimiser. The theorems speak about the ORIGINAL "
+            "only): ABI outputs / ABI subroutines, WideRatio outside the side conditions W1/W2 (first two factors syntactically uint64, no exit/call in later factors: both needed, counterexample theorems), the optimiser. The theorems speak about the ORIGINAL "
             "program (renaming invariance Proofs/Rename.lean under the decidable renameOk, evaluated per program).",
             "DESIGN.md Part II C02"),
     "C03": ("proof",
@@ -35,8 +35,8 @@ CHECKS = {
             "the model; every graph is also executed before/after. Version / frame-pointer settings: one program, every setting under which it "
             "compiles, executed on the same contexts (verdict, return value, effects, user-numbered slots, stack at routine exits for twins).",
             "Trusted: Lean kernel, AVM spec, block-graph machine, harness encoding of real graphs. The optimiser theorem is partial (hypothesis "
-            "pairsOnly; underflow clause); equivalence across versions and across frame_pointers is a theorem for programs inside the composed fragments with the optimiser off, exploration otherwise. One known finding "
-            "(dead stores deleted by the optimiser leave their value on the stack; pinned by the repository's own optimizer_test).",
+            "pairsOnly; underflow clause); equivalence across versions and across frame_pointers is a theorem for programs inside the composed fragments with the optimiser off, exploration otherwise. Two known findings "
+            "(dead stores deleted by the optimiser leave their value on the stack, pinned by the repository's own optimizer_test; control transfer in operand position).",
             "DESIGN.md Part II C03"),
     "C15": ("proof",
             "Lean 4 proof: Base64-VLQ and Revision-3 mappings round-trip theorems (all integer lists / all well-formed tables), annotated-line stripping theorem against the TEAL tokeniser; correspondence with the real codecs; frame-capture parts decided by differential execution of generated source files with/without source maps",
@@ -51,8 +51,8 @@ CHECKS = {
             "wf_sound_control / wf_sound_inside / wf_sound_illegal are proved for all programs, contexts and run lengths; the checker is run "
             "on the real output of every generated program, of an opcode/field catalogue at every version and mode, and of all golden TEAL "
             "files; `optable_agrees` / `fieldtable_agrees` compare the regenerated PyTeal tables with a hand-written AVM table entry by entry.",
-            "Trusted: Lean kernel, hand-written OpSpec (anchored by 185 golden TEAL files), Avm grammar and semantics, translate.py. Five "
-            "known findings (indices over 255, name newline, AssetCreator below v5, itxn_field fields not settable).",
+            "Trusted: Lean kernel, hand-written OpSpec (anchored by 185 golden TEAL files), Avm grammar and semantics, translate.py. Five defects "
+            "repaired with fix: commits (array index over 255, routine name with a line break, AssetCreator below v5, constant blocks over 256 entries, non-int slot ids written into the text); one remains (itxn_field fields that cannot be set are accepted by SetField).",
             "DESIGN.md Part II C04"),
     "C05": ("proof",
             "Lean 4: verified abstract interpreter `StackCheck` (certificate: abstract type stack per pc, routine summaries) run on the real TEAL of every explored program; soundness theorems over Avm.step (no underflow, no pop below the routine base, no frame misuse, type errors only where an operand is `any`), per-opcode signature lemmas against execPrim",
@@ -140,9 +140,9 @@ CHECKS = {
             "Text-safety theorems are universal over annotation texts; stream identity of real outputs is decided per explored program and "
             "insertion point (streams from the independent tokeniser, labels alpha-renamed, Nonce pair removed) with every difference "
             "re-classified (optimiser off, control-flow isomorphism, opcode multiset) and executed on the AVM spec.",
-            "Trusted: TEAL grammar incl. the newline-only line rule, recipe builders, Python-side stream comparison. Five known findings "
-            "(name newline; wrapped literal changes opcode selection; annotation blocks slot optimisation; comment block changes layout; "
-            "long comment hits the recursion limit).",
+            "Trusted: TEAL grammar incl. the newline-only line rule, recipe builders, Python-side stream comparison. Four known findings "
+            "(wrapped literal changes opcode selection; annotation blocks slot optimisation; comment block changes layout; "
+            "long comment hits the recursion limit); the routine-name line break was repaired.",
             "DESIGN.md Part II C18"),
     "C19": ("proof",
             "Lean 4 proof: assignable_sound / assignable_encode / assignable_decode on a line-by-line model of type_spec_is_assignable_to over an ARC-4 specification whose decode∘encode identity is proved; exhaustive pair enumeration against the real function; algosdk encodings under both types",
@@ -156,7 +156,7 @@ CHECKS = {
             "The real compiler must answer TEAL or a PyTeal error for every explored program and accept every program that fits the target; "
             "all control skeletons up to the tier's size are enumerated (loop first, Break/Continue-only bodies, empty sequences, both arms "
             "empty, nested loops) in main and as the first statement of a subroutine.",
-            "Trusted: prediction of acceptability (harness operator table). Three crash defects were repaired with fix: commits; one known "
+            "Trusted: prediction of acceptability (harness operator table). Four crash defects were repaired with fix: commits; one known "
             "finding (recursion limit on very long / deep programs).",
             "DESIGN.md Part II C20"),
     "C13": ("proof",
